@@ -1,6 +1,6 @@
 (* GenEqNum.v — number codecs of encode/buffer.go and decode/buffer.go: translated source = model *)
 From Coq Require Import ZArith Bool List Lia ZifyBool ZifyNat.
-From IVG Require Import SF NumCodec Color Calls Decoder GoSem Tables GoSrc NumBase NumProofs SFProofs NumSweepD Mul64 GenEqBase GenEqFloat.
+From IVG Require Import SF NumCodec Color Calls Decoder GoSem Tables GoSrc NumBase NumProofs SFProofs NumSweepD Mul64 GenEqBase GenEqFloat QuantEq.
 Import ListNotations.
 Local Open Scope Z_scope.
 Ltac Zify.zify_post_hook ::= Z.div_mod_to_equations.
@@ -321,4 +321,26 @@ Theorem go_quantize_untouched hires f :
 Proof.
   intros G. unfold go_encode_Encoder_quantize, quantize. rewrite <- cm128_bits, <- c128_bits.
   rewrite G. rewrite <- andb_assoc in G. rewrite G. split; reflexivity.
+Qed.
+
+(* ---------- Encoder.quantize: the quantised value (float64 chain of the source = the model's exact statement) ---------- *)
+Theorem go_quantize_eq f : wf_f32 f -> fle F32 cm128 f = true -> flt F32 f c128 = true ->
+  2 ^ 114 <= Z.abs (ival32 f) ->
+  go_encode_Encoder_quantize false f = quantize false f.
+Proof.
+  intros W L1 L2 Hmag.
+  destruct (quant_range f W L1 L2) as [Ff Hr].
+  unfold is_finite in Ff. destruct (decode F32 f) as [| |s m e] eqn:D; try discriminate.
+  pose proof (decode32_fin _ _ _ _ W D) as [Hm He].
+  rewrite (ival32_fin _ _ _ _ D) in Hmag, Hr.
+  assert (P0 : 0 < 2 ^ (e + 149)) by (apply Z.pow_pos_nonneg; lia).
+  assert (Habs : Z.abs (sm s m * 2 ^ (e + 149)) = m * 2 ^ (e + 149)).
+  { destruct s; unfold sm; [rewrite Z.mul_opp_l, Z.abs_opp|]; apply Z.abs_eq; nia. }
+  rewrite Habs in Hmag.
+  assert (Hup : m * 2 ^ (e + 149) <= 2 ^ 156).
+  { change (2 ^ 156) with (128 * 2 ^ 149). destruct s; unfold sm in Hr; lia. }
+  unfold go_encode_Encoder_quantize, quantize. rewrite <- cm128_bits, <- c128_bits, <- c64_bits.
+  cbn [negb andb]. rewrite L1, L2. cbn [andb].
+  rewrite (quant_chain f s m e W D (conj Hmag Hup)).
+  unfold quant_k. rewrite (ival32_fin _ _ _ _ D). reflexivity.
 Qed.
